@@ -71,6 +71,13 @@ class ListFunModel:
         if not isinstance(src, ListObj):
             return NI
         free = {n.id for c in g.ifs for n in ast.walk(c) if isinstance(n, ast.Name)} - {g.target.id}
+        from ..values import ModuleVal
+        for nm in list(free):
+            try:
+                if isinstance(I.lookup(st, nm), ModuleVal):
+                    free.discard(nm)         # a module name (e.g. `os`): the predicate is still a function of the element
+            except Exception:
+                pass
         if free:
             return NI
         A, n = _arr_of(st, src)
